@@ -19,7 +19,7 @@ func init() {
 }
 
 func runC01(c *Ctx) {
-	c.Rule("R1.1", 16, "memo-field completeness across the four operator accessors")
+	c.Rule("R1.1", 24, "memo-field completeness across the four operator accessors")
 	c.Rule("R1.2", 2, "synthesised names are outside the user's name space and injective")
 	c.Rule("R1.3", 13, "operator expansion schema generates the documented repetition counts")
 	c.Rule("R1.4", 5, "concatenation / alternation / trailing bar / rule actions")
@@ -520,6 +520,43 @@ func checkMemoCompleteness(c *Ctx) {
 			c.Check("R1.1", fmt.Sprintf("%s installs its generated name under the field it reads (%s)", a.fd.Name.Name, a.field), p.pos, own,
 				fmt.Sprintf("%s returns e.%s on a hit but stores the name it generates under %v: the other operator that reads that field reuses this operator's non-terminal for the same sub-expression", a.fd.Name.Name, a.field, got),
 				"start = [\"+\" | \"-\"] NUM (\"+\" | \"-\") NUM;")
+		}
+	}
+	// the kind tag given to the name generator: one tag per accessor (hit path and miss path alike), pairwise distinct across accessors
+	tagOf := map[string]string{}
+	for _, a := range accs {
+		tags := map[string]int{}
+		ast.Inspect(a.fd.Body, func(n ast.Node) bool {
+			call, ok := n.(*ast.CallExpr)
+			if !ok {
+				return true
+			}
+			if fo, ok := objOf(info, call.Fun).(*types.Func); !ok || fo.Pkg() != sp.Types || fo.Type().(*types.Signature).Recv() == nil {
+				return true
+			}
+			for _, arg := range call.Args {
+				if v, ok := constStr(info, arg); ok {
+					tags[v]++
+				}
+			}
+			return true
+		})
+		var ks []string
+		n := 0
+		for k, v := range tags {
+			ks = append(ks, k)
+			n += v
+		}
+		sort.Strings(ks)
+		c.Check("R1.1", fmt.Sprintf("%s gives the name generator one and the same kind tag on every path", a.fd.Name.Name), a.fd.Pos(), len(ks) == 1 && n >= 2,
+			fmt.Sprintf("%s generates names with the tags %q (%d sites): on one path the sub-expression gets a name of another operator's kind, and the two operators share one non-terminal for it", a.fd.Name.Name, ks, n),
+			"start = \"pos\" [sign] NUM | \"neg\" (sign) NUM;")
+		if len(ks) == 1 {
+			if other, dup := tagOf[ks[0]]; dup {
+				c.Fail("R1.1", fmt.Sprintf("%s and %s use different kind tags", other, a.fd.Name.Name), a.fd.Pos(), fmt.Sprintf("both use %q: the same sub-expression under both operators gets one non-terminal", ks[0]))
+			} else {
+				tagOf[ks[0]] = a.fd.Name.Name
+			}
 		}
 	}
 	for _, a := range accs {
